@@ -10,7 +10,7 @@ from . import extract
 from .facts import Facts, norm
 
 VERIF = extract.VERIF
-EVIDENCE = os.path.join(VERIF, 'evidence')
+EVIDENCE = os.environ.get('ORDVERIF_EVIDENCE') or os.path.join(VERIF, 'evidence')
 KNOWN = os.path.join(VERIF, 'known_findings.json')
 
 COMMON_ASSUMPTIONS = [
